@@ -43,7 +43,7 @@ NOT_APPLICABLE = {}
 TRUST = ' Trusted: Lean kernel, Mathlib, translator + PyR reading of the primitives (validated bitwise against the real code on every run).'
 
 LEVEL['C01'] = dict(
-    technique='Lean 4 theorems over the regenerated real-number model (Krüger α series = independently derived reference by ring, conformal latitude / Gauss–Schreiber identities, zone selection, validation logic) + bitwise translator validation',
+    technique='Lean 4 theorems over the regenerated real-number model (Krüger α series = independently derived reference by ring, conformal latitude / Gauss–Schreiber identities, zone selection, validation logic; on the sphere the conversion is proved to be the exact spherical transverse Mercator) + bitwise translator validation',
     text='Machine-checked for all inputs about the Lean term regenerated from convert.py: every α coefficient polynomial equals '
          'the independently derived Krüger–Karney series to n^8 (ring), rectifying radius, the conformal-latitude expression '
          'equals sinh(arsinh t − e·artanh(e sin φ)), Gauss–Schreiber identities, the series step is the complex sine series, '
@@ -70,7 +70,7 @@ LEVEL['C10'] = dict(
          'conformal-sphere scale; second convergence term equals |atan(sin χ tan ω)|; sign rule, oddness, zeros.',
     note=PARTIAL + 'Here: 2e-8 / 1e-9 deg against the exact projection (search, differentiated exact-TM oracle).' + TRUST)
 LEVEL['C04'] = dict(
-    technique='Lean 4 theorems over the regenerated model (Vincenty A, B, C series identities, u² from the call\'s ellipsoid only, Clairaut and auxiliary-sphere identities, forBreak loop lemma, zero-distance case) + bitwise translator validation',
+    technique='Lean 4 theorems over the regenerated model (Vincenty A, B, C series identities, u² from the call\'s ellipsoid only, Clairaut and auxiliary-sphere identities, forBreak loop lemma, zero-distance case; on the sphere the result is proved to be the exact great-circle solution) + bitwise translator validation',
     text='Machine-checked for all inputs: the generated vincdir equals the composition of named pieces; A, B equal '
          'Vincenty\'s polynomials (A\'s coefficients are the binomial Taylor coefficients), C, u² uses only the ellipsoid '
          'argument; Clairaut relation and its reverse form, the end point is the great-circle end point on the auxiliary '
@@ -78,7 +78,7 @@ LEVEL['C04'] = dict(
          'point and azimuth ± 180; rounding bounds.',
     note=PARTIAL + 'Here: 1 mm / 1e-8 deg against the exact geodesic (search, quadrature oracle).' + TRUST)
 LEVEL['C05'] = dict(
-    technique='Lean 4 theorems over the regenerated model (longitude-shift invariance, ±360 periodicity by a relational forBreak lemma, swap symmetry of the distance, azimuth ranges, series identities, loop exit) + bitwise translator validation',
+    technique='Lean 4 theorems over the regenerated model (longitude-shift invariance, ±360 periodicity by a relational forBreak lemma, swap symmetry of the distance, azimuth ranges, series identities, loop exit; on the sphere distance = R·(central angle of the spherical law of cosines) and spherical azimuths) + bitwise translator validation',
     text='Machine-checked for all inputs: coincidence test; invariance under a common longitude offset; ±360° on one '
          'longitude leaves all outputs unchanged outside the coincidence branch (and a proved counterexample shows the guard '
          'is needed); swapping the points gives the same distance and exchanged azimuths; azimuth ranges; A, B, C, u², '
@@ -151,7 +151,7 @@ LEVEL['C09'] = dict(
          'checked dynamically, not proved; CPython/numpy/BLAS thread safety is outside the model; schedules are sampled. '
          'Hook: guarded block at the end of constants.py (GEODEPY_VERIF=1).')
 LEVEL['C08'] = dict(
-    technique='Lean 4 theorems at ℚ over one generic hand model of angles.py (exact field decomposition, HP validity incl. carries, chains of any length by induction) + correspondence of the Float instance with the real code, exhaustive over the whole-arc-second lattice in the thorough tier',
+    technique='Lean 4 theorems at ℚ over one generic hand model of angles.py (exact field decomposition, HP validity incl. carries, chains of any length by induction); every method of the five classes regenerated from angles.py and proved equal to the model\'s + correspondence of the Float instance with the real code, exhaustive over the whole-arc-second lattice in the thorough tier',
     text='Machine-checked in exact arithmetic about the model whose Float instance is compared bit for bit with angles.py: '
          'dec→DMS/DDM fields in range and exact, sign kept in (−1°, 0); hp2dec accepts exactly valid fields and is exact; '
          'dec2hp output is valid HP (minute→degree carry) and reads back within 0.5e-9″ (0.5e-8″ from 512°); HPAngle accepts '
@@ -160,7 +160,7 @@ LEVEL['C08'] = dict(
     note='PARTIAL: the 1e-8″ bound for all doubles in [−720, 720] (binary64 error analysis) is not proved — exhaustive on the '
          '2 592 000-point lattice (thorough) and searched elsewhere. Hand model: trusted via correspondence.')
 LEVEL['C12'] = dict(
-    technique='Lean 4 theorems at ℚ over the generic angle-object model (each operator vs decimal-degree arithmetic, comparisons, rounding, modulo, induction over expression trees with an explicit error recursion) + node-by-node correspondence on random expression trees',
+    technique='Lean 4 theorems at ℚ over the generic angle-object model (each operator vs decimal-degree arithmetic, comparisons, rounding, modulo, induction over expression trees with an explicit error recursion); all operator/comparison/conversion methods regenerated from angles.py and proved equal to the model\'s + node-by-node correspondence on random expression trees',
     text='Machine-checked at ℚ: + − (both reflected forms), × and ÷ by a number, unary −, abs give the decimal-degree result '
          'with the class of the left operand (exact except one HP rounding per HP-class node); comparisons agree with decimal '
          'degrees; rounding within half a unit; DMS/DDM modulo; any expression tree evaluates within the error recursion errB '
@@ -168,7 +168,7 @@ LEVEL['C12'] = dict(
     note='PARTIAL: binary64 accumulation per node is covered by search and correspondence, not proved; the flat bound of the '
          'plan is false in general (multipliers scale errors) and is replaced by errB. Hand model: trusted via correspondence.')
 LEVEL['C17'] = dict(
-    technique='Lean 4 theorems over the interpolation kernels regenerated from ntv2reader.py (proved equal to the model kernels) and over a hand model of the reader generic in its arithmetic (bilinear blend, Hermite/bi-quadratic reproduction with the code\'s cinv by decide/ring, byte-offset induction, exact node addressing of the executed seek/read sequence, finest sub-grid for any iteration order) + bitwise correspondence on synthetic grid files',
+    technique='Lean 4 theorems over the interpolation kernels, the sub-grid test, the finest-increment step, the row/column arithmetic and transform.ntv2_2d regenerated from the source (each proved equal to the model\'s) and over a hand model of the reader generic in its arithmetic (bilinear blend, Hermite/bi-quadratic reproduction with the code\'s cinv by decide/ring, byte-offset induction, exact node addressing of the executed seek/read sequence, finest sub-grid for any iteration order) + bitwise correspondence on synthetic grid files',
     text='Machine-checked: bilinear is the exact blend of the four nodes the code reads, reproduces node values and linear '
          'fields; bicubic (code\'s 16×16 cinv = inverse Hermite basis over ℤ) reproduces node values, linear and bi-quadratic '
          'fields where its stencil fits; the executed seeks/reads return exactly the 4 / 16 nodes of the selected sub-grid '
@@ -188,7 +188,7 @@ LEVEL['C18'] = dict(
          'coverage of those is by correspondence and search. Hand model: trusted via correspondence (output bytes).')
 
 LEVEL['C15'] = dict(
-    technique='Lean 4 theorems over a hand model of coord.py generic in the conversion functions (same numbers by rfl, heights carried, N = ell − orth over an additive group, induction over conversion chains) + bitwise correspondence of the instance built from the regenerated conversions',
+    technique='Lean 4 theorems over a model of coord.py generic in the conversion functions (same numbers by rfl, heights carried, N = ell − orth over an additive group, induction over conversion chains); constructors and conversion methods regenerated from coord.py and proved equal to the model\'s + bitwise correspondence of the instance built from the regenerated conversions',
     text='Machine-checked for every choice of conversion functions: each method returns exactly the functional conversion of its '
          'fields for the requested ellipsoid, projection (call\'s for geo→tm, stored for tm→geo) and notation; geo↔tm and '
          'notation keep both heights exactly (incl. None and 0); cart→geo gives orth = ell − N, geo→cart gives N = ell − orth '
